@@ -445,9 +445,9 @@ static int run_more(void) {
     /* contains_value for every kind, and the kind-specific entry point */
     lp_rational_interval_t I; get_ri(&I); lp_value_t v; get_val(&v);
     printf("%d", lp_rational_interval_contains_value(&I, &v) ? 1 : 0);
-    if (v.type == LP_VALUE_INTEGER) printf(" %d", lp_rational_interval_contains_integer(&I, &v.value.z) ? 1 : 0);
-    else if (v.type == LP_VALUE_DYADIC_RATIONAL) printf(" %d", lp_rational_interval_contains_dyadic_rational(&I, &v.value.dy_q) ? 1 : 0);
-    else if (v.type == LP_VALUE_RATIONAL) printf(" %d", lp_rational_interval_contains_rational(&I, &v.value.q) ? 1 : 0);
+    /* lp_rational_interval_contains_integer / _dyadic_rational / _algebraic_number are assert(0) stubs in libpoly: they are
+       outside the property and are not called (DESIGN.md, observations outside the properties) */
+    if (v.type == LP_VALUE_RATIONAL) printf(" %d", lp_rational_interval_contains_rational(&I, &v.value.q) ? 1 : 0);
     lp_value_destruct(&v); lp_rational_interval_destruct(&I); return 1;
   }
   if (is_op("rcalg")) {
@@ -455,7 +455,6 @@ static int run_more(void) {
     lp_rational_interval_t I; get_ri(&I); lp_value_t v;
     if (!vio_parse(&v, tk())) { printf("BAD-TOKEN"); lp_rational_interval_destruct(&I); return 1; }
     printf("%d", lp_rational_interval_contains_value(&I, &v) ? 1 : 0);
-    if (v.type == LP_VALUE_ALGEBRAIC) printf(" %d", lp_rational_interval_contains_algebraic_number(&I, &v.value.a) ? 1 : 0);
     lp_value_destruct(&v); lp_rational_interval_destruct(&I); return 1;
   }
   if (is_op("vcollapse") || is_op("vseta") || is_op("vsetb")) {
